@@ -24,6 +24,8 @@
 #ifndef SOLHandlerCIMPL_H
 #define SOLHandlerCIMPL_H
 
+#include <algorithm>
+
 #include "api/c/sol-handler-c.h"
 
 #include "mp/sol-handler.h"
@@ -82,8 +84,12 @@ public:
     assert(SH().OnAMPLOptions);
 
     AMPLOptions_C ao_c;
-    ao_c.n_options_ = (int)ao.options_.size();
-    std::copy(ao.options_.begin(), ao.options_.end(),
+    // The C record holds at most MAX_AMPL_OPTIONS values
+    auto n_opt = std::min(ao.options_.size(),
+                          (std::size_t)MAX_AMPL_OPTIONS);
+    ao_c.n_options_ = (int)n_opt;
+    std::fill(ao_c.options_, ao_c.options_+MAX_AMPL_OPTIONS, 0L);
+    std::copy(ao.options_.begin(), ao.options_.begin()+n_opt,
               ao_c.options_);
     ao_c.has_vbtol_ = ao.has_vbtol_;
     ao_c.vbtol_ = ao.vbtol_;
